@@ -131,7 +131,13 @@ let () =
       Printf.printf "M %s %s\n" id (String.concat " " mt);
       Printf.printf "S %s %s\n" id (String.concat " " st)
     | id :: "sin" :: idlen :: wr :: reqs ->
-      let mode = if wr.[0] = 'L' then 1 else int_of_string wr in     (* L<n>: the write queue limit is assumed not to be hit *)
+      let qcap = if wr.[0] = 'Q' then Some (nat_of_int (int_of_string (String.sub wr 1 (String.length wr - 1)))) else None in
+      let mode = if wr.[0] = 'L' || wr.[0] = 'Q' then 1 else int_of_string wr in     (* L<n>: the write queue limit is assumed not to be hit; Q<n>: a queue of exactly n bytes *)
+      let spec = ref false in
+      let request2 idl mode m reps code = match qcap with
+        | None -> sin_request2 idl mode m reps code
+        | Some cap -> if !spec then s_sin_request_q idl cap m reps code else sin_request_q idl cap m reps code in
+      let sin_request2 = request2 in
       let idl = nat_of_int (int_of_string idlen) in
       let show (r : sin_res) defer =
         let seen = (match r.si_seen with
@@ -159,8 +165,15 @@ let () =
         | "srf" :: rest -> "r2:noclone" :: go rest
         | _ -> [] in
       let toks = String.concat " " (go reqs) in
+      spec := true;
+      let stoks = if qcap = None then toks else String.concat " " (go reqs) in
       Printf.printf "M %s %s\n" id toks;
-      Printf.printf "S %s %s\n" id toks
+      Printf.printf "S %s %s\n" id stoks
+    | id :: "nrc" :: code :: text :: _ ->
+      let (r, out) = ctx_reply_none (z_of_int (int_of_string code)) (pay_of text) in
+      let tok = Printf.sprintf "i%d:%s" (int_of_z r) (hex_of_bytes out) in
+      Printf.printf "M %s %s\n" id tok;
+      Printf.printf "S %s %s\n" id tok
     | id :: "sinx" :: idlen :: mode :: code :: _ ->
       let ok = sin_create_ok (nat_of_int (if idlen = "badfd" then 2 else int_of_string idlen)) (n_of_hex mode)
                  (nat_of_int (int_of_string code)) (idlen <> "badfd") in
